@@ -22,8 +22,23 @@ Qed.
 Lemma gen_set_last_snd_snoc acc a b v : gen_set_last_snd (acc ++ [(a, b)]) v = Some (acc ++ [(a, v)]).
 Proof. unfold gen_set_last_snd. rewrite rev_unit. simpl. rewrite rev_involutive. reflexivity. Qed.
 
+(* Decide an equation between two nests of conditionals over integer comparisons by splitting on
+   every comparison atom: insensitive to how the source arranges its guards (inverted conditions,
+   swapped returns, inlined or named sub-conditions). *)
+Ltac split_atoms :=
+  repeat match goal with
+         | |- context [Z.eqb ?a ?b] => destruct (Z.eqb_spec a b)
+         | |- context [Z.ltb ?a ?b] => destruct (Z.ltb_spec a b)
+         | |- context [Z.leb ?a ?b] => destruct (Z.leb_spec a b)
+         | |- context [bytes_eqb ?a ?b] => destruct (bytes_eqb a b)
+         end;
+  cbn [negb andb orb]; try reflexivity; try (exfalso; lia).
+
 (* GetSyncRanges: the generated loop (which accumulates the result) and the model loop agree for
-   every fuel and every input, wrapping or not *)
+   every fuel and every input, wrapping or not.  The proof compares results, not shapes: both sides
+   are unfolded one iteration, the wraps are normalised, every comparison is split, and what remains
+   are equations between lists (clipping the last pair by an index assignment or appending the
+   clipped pair directly makes no difference). *)
 Lemma gen_sync_ranges_loop_eq : forall fuel i acc s e r,
   gen_get_sync_ranges_loop fuel i acc s e r =
   match sync_ranges_loop fuel i e r with
@@ -31,16 +46,18 @@ Lemma gen_sync_ranges_loop_eq : forall fuel i acc s e r,
   | RangesOutOfFuel => GenRangesOutOfFuel
   end.
 Proof.
-  induction fuel as [|f IH]; intros i acc s e r; simpl; [reflexivity|].
-  destruct (i <=? e); [|rewrite app_nil_r; reflexivity].
-  assert (Hen : gen_u64 (gen_u64 (i + r) - 1) = u64 (i + r - 1)).
-  { unfold gen_u64, u64, two64. rewrite Zminus_mod_idemp_l. reflexivity. }
-  rewrite Hen. rewrite Z.gtb_ltb.
-  destruct (e <? u64 (i + r - 1)).
-  - rewrite gen_set_last_snd_snoc. reflexivity.
-  - rewrite IH. rewrite gen_u64_is_u64.
-    destruct (sync_ranges_loop f (u64 (i + r)) e r); [|reflexivity].
-    rewrite <- app_assoc. reflexivity.
+  induction fuel as [|f IH]; intros i acc s e r; [reflexivity|].
+  cbn [gen_get_sync_ranges_loop sync_ranges_loop]. cbv zeta.
+  rewrite ?Z.gtb_ltb.
+  unfold gen_u64, u64, two64. rewrite ?Zminus_mod_idemp_l.
+  rewrite ?gen_set_last_snd_snoc.
+  repeat match goal with
+         | |- context [if ?c then _ else _] => destruct c eqn:?
+         end;
+    rewrite ?gen_set_last_snd_snoc, ?app_nil_r; try reflexivity; try congruence.
+  all: rewrite IH; unfold u64, two64;
+    match goal with |- context [sync_ranges_loop ?f ?i ?e ?r] => destruct (sync_ranges_loop f i e r) end;
+    rewrite <- ?app_assoc; reflexivity.
 Qed.
 
 Theorem generated_sync_ranges : forall fuel s e r,
@@ -67,8 +84,8 @@ Section Reorg.
     num_reorged fl k h nd = gen_multi_reorg_depth (n_number nd) k (bytes_eqb (n_parent nd) h) (fl_depth fl).
   Proof.
     intros Hk Hn Hd. rewrite model_num_reorged_unfold. unfold gen_multi_reorg_depth. cbv zeta.
-    rewrite !gen_i64_small by lia.
-    destruct ((n_number nd =? k + 1) && negb (bytes_eqb (n_parent nd) h)); reflexivity.
+    repeat rewrite gen_i64_small by lia.
+    split_atoms.
   Qed.
 
   Lemma generated_registry_num_reorged (fl : flavour) k h (nd : node E) :
@@ -77,8 +94,8 @@ Section Reorg.
     num_reorged fl k h nd = gen_registry_num_reorged (n_number nd) k (bytes_eqb (n_parent nd) h).
   Proof.
     intros Hfd Hk Hn. rewrite model_num_reorged_unfold, Hfd. unfold gen_registry_num_reorged, registry_assumed_reorg_depth. cbv zeta.
-    rewrite !gen_i64_small by lia.
-    destruct ((n_number nd =? k + 1) && negb (bytes_eqb (n_parent nd) h)); reflexivity.
+    repeat rewrite gen_i64_small by lia.
+    split_atoms.
   Qed.
 
   Lemma generated_sequencer_num_reorged (fl : flavour) k h (nd : node E) :
@@ -87,7 +104,7 @@ Section Reorg.
     num_reorged fl k h nd = gen_sequencer_num_reorged (n_number nd) k (bytes_eqb (n_parent nd) h).
   Proof.
     intros Hfd Hk Hn. rewrite model_num_reorged_unfold, Hfd. unfold gen_sequencer_num_reorged, sequencer_assumed_reorg_depth. cbv zeta.
-    rewrite !gen_i64_small by lia.
-    destruct ((n_number nd =? k + 1) && negb (bytes_eqb (n_parent nd) h)); reflexivity.
+    repeat rewrite gen_i64_small by lia.
+    split_atoms.
   Qed.
 End Reorg.
